@@ -25,7 +25,7 @@ import (
 	"verif/harness/xt"
 )
 
-const c14Rule = "rapid over (endpoint: SSO via query, SSO via form with SAMLEncoding=DEFLATE, logout via form, logout via query) x (inflated size S from 1 MiB to 256 MiB in the quick tier, to 1 GiB in the thorough tier) x (padding placed in a comment, in element text, in an attribute value, or after the document element) x (padding byte) x (wrapper otherwise valid / issuer unregistered): a DEFLATE stream of about S/1000 bytes is sent as one request, alone, on one goroutine; runtime.MemStats.TotalAlloc is read before and after ServeHTTP. x (compression level: fastest, about 800:1, or best, about 1030:1 - the format's maximum) x (one DEFLATE stream, or the message cut into 4 / 9 / 40 streams each finished on its own) x (padding of one repeated byte, or - on the form endpoints - text that compresses only 10:1, so that the payload itself is megabytes): Oracle: the allocation during the call is at most 160 MiB whatever S is, and a request with S >= 32 MiB (half an order of magnitude above the 10 MB the statement names) is not accepted (no CreateAuthRequest, no Success). Sizes below 32 MiB are executed and reported, not asserted (the statement fixes only the order of magnitude of the cap). Non-trivial: S >= 32 MiB with a compressed size below 1 MiB. Distinct by (endpoint, placement, size, wrapper validity)."
+const c14Rule = "rapid over (endpoint: SSO via query, SSO via form with SAMLEncoding=DEFLATE, logout via form, logout via query) x (inflated size S from 1 MiB to 256 MiB in the quick tier, to 1 GiB in the thorough tier) x (padding placed in a comment, in element text, in an attribute value, or after the document element) x (padding byte) x (wrapper otherwise valid / issuer unregistered): a DEFLATE stream of about S/1000 bytes is sent as one request, alone, on one goroutine; runtime.MemStats.TotalAlloc is read before and after ServeHTTP. x (compression level: fastest, about 800:1, or best, about 1030:1 - the format's maximum) x (one DEFLATE stream, or the message cut into 4 / 9 / 40 streams each finished on its own) x (padding of one repeated byte, or - on the form endpoints - text that compresses only 10:1, so that the payload itself is megabytes): Oracle: the allocation during the call is at most 160 MiB whatever S is, and a request with S >= 32 MiB (half an order of magnitude above the 10 MB the statement names) is not accepted (no CreateAuthRequest, no Success). Sizes below 32 MiB are executed and reported, not asserted (the statement fixes only the order of magnitude of the cap). The message parameter may occur up to 40 times, every occurrence spelled differently and inflating to the case's size. Non-trivial (sizes summed over occurrences): S >= 32 MiB with a compressed size below 1 MiB. Distinct by (endpoint, placement, size, wrapper validity)."
 
 type C14Case struct {
 	Endpoint  string `json:"endpoint"` // sso-query | sso-form | slo-form | slo-query
@@ -37,6 +37,9 @@ type C14Case struct {
 	Best      bool   `json:"best_compression,omitempty"`
 	// Streams > 1: the message is cut into that many DEFLATE streams, each finished on its own, sent back to back.
 	Streams int `json:"streams,omitempty"`
+	// Repeat > 1: the SAMLRequest parameter occurs that many times, every occurrence spelled differently (base64 line breaks at
+	// different places) and every one inflating to SizeMiB: what a request may make the IdP inflate is bounded, not what one value may.
+	Repeat int `json:"repeat,omitempty"`
 }
 
 var (
@@ -210,6 +213,7 @@ func genC14Case(t *rapid.T) C14Case {
 		Container: rapid.SampledFrom([]string{"", "", "", "zlib", "gzip"}).Draw(t, "container"),
 		Best:      rapid.Bool().Draw(t, "best"),
 		Streams:   rapid.SampledFrom([]int{0, 0, 0, 4, 9, 40}).Draw(t, "streams"),
+		Repeat:    rapid.SampledFrom([]int{0, 0, 0, 0, 6, 40}).Draw(t, "repeat"),
 	}
 }
 
@@ -224,7 +228,19 @@ func c14Run(c C14Case) (vs []*ev.Violation, alloc uint64, compressed int, accept
 	now := time.Now()
 	payload := c14Payload(c, spec, now)
 	compressed = len(payload)
-	msg := qesc(base64.StdEncoding.EncodeToString(payload))
+	b64 := base64.StdEncoding.EncodeToString(payload)
+	msg := qesc(b64)
+	if c.Repeat > 1 && !strings.HasSuffix(c.Endpoint, "-http-encoded") {
+		var parts []string
+		for i := 0; i < c.Repeat; i++ {
+			cut := 4 * (i + 1)
+			if cut > len(b64) {
+				cut = len(b64)
+			}
+			parts = append(parts, qesc(b64[:cut]+"\n"+b64[cut:]))
+		}
+		msg = strings.Join(parts, "&SAMLRequest=")
+	}
 	var hr obs.HTTPReq
 	route := spec.IdP.Route("sso")
 	if strings.HasPrefix(c.Endpoint, "slo") {
@@ -290,12 +306,12 @@ func TestC14(t *testing.T) {
 			maxAlloc = alloc
 			col.SetExtra("max_alloc_mib_during_one_request", int(maxAlloc>>20))
 		}
-		nt := c.SizeMiB >= c14AcceptLimitMiB && compressed < 1<<20
+		nt := c.SizeMiB*maxInt(1, c.Repeat) >= c14AcceptLimitMiB && compressed < 1<<20
 		bucket := "<=64MiB"
 		if alloc > 64<<20 {
 			bucket = ">64MiB"
 		}
-		col.Case(nt, ev.Fingerprint(c.Endpoint, c.Placement, c.SizeMiB, c.Valid, c.Container, c.Best, c.Streams), []string{"endpoint/" + c.Endpoint, "placement/" + c.Placement, fmt.Sprintf("streams/%d", c.Streams), fmt.Sprintf("size/%04dMiB", c.SizeMiB), fmt.Sprintf("accepted=%v", accepted), "alloc" + bucket}, func() any {
+		col.Case(nt, ev.Fingerprint(c.Endpoint, c.Placement, c.SizeMiB, c.Valid, c.Container, c.Best, c.Streams, c.Repeat), []string{"endpoint/" + c.Endpoint, "placement/" + c.Placement, fmt.Sprintf("streams/%d", c.Streams), fmt.Sprintf("size/%04dMiB", c.SizeMiB), fmt.Sprintf("accepted=%v", accepted), "alloc" + bucket}, func() any {
 			return map[string]any{"case": c, "compressed_bytes": compressed, "allocated_mib": alloc >> 20, "accepted": accepted}
 		})
 		return vs
@@ -334,6 +350,12 @@ func TestC14Ladder(t *testing.T) {
 				}
 			}
 		}
+		// the message parameter many times over, each occurrence below any cap on one value
+		for _, ep := range []string{"sso-query", "sso-form", "slo-form", "slo-query"} {
+			for _, size := range []int{8, 9} {
+				cases = append(cases, C14Case{Endpoint: ep, SizeMiB: size, Placement: "comment", Pad: "A", Valid: true, Best: true, Repeat: 40})
+			}
+		}
 		// low compression ratio: the payload itself is megabytes (only a form body carries that much)
 		for _, ep := range []string{"sso-form", "slo-form"} {
 			for _, size := range []int{32, 48} {
@@ -347,7 +369,7 @@ func TestC14Ladder(t *testing.T) {
 			if alloc > 64<<20 {
 				bucket = ">64MiB"
 			}
-			col.Case(size >= c14AcceptLimitMiB && compressed < 1<<20, ev.Fingerprint(c.Endpoint, c.Placement, c.SizeMiB, c.Valid, c.Container, c.Best, c.Streams, c.Pad), []string{"ladder/endpoint/" + ep, fmt.Sprintf("ladder/size/%04dMiB", size), fmt.Sprintf("ladder/accepted=%v", accepted), "ladder/alloc" + bucket, "ladder/placement/" + c.Placement, fmt.Sprintf("ladder/streams/%d", c.Streams), "ladder/pad/" + map[bool]string{true: "noise", false: "constant"}[c.Pad == "noise"]}, func() any {
+			col.Case(size*maxInt(1, c.Repeat) >= c14AcceptLimitMiB && compressed < 1<<20, ev.Fingerprint(c.Endpoint, c.Placement, c.SizeMiB, c.Valid, c.Container, c.Best, c.Streams, c.Pad, c.Repeat), []string{"ladder/endpoint/" + ep, fmt.Sprintf("ladder/size/%04dMiB", size), fmt.Sprintf("ladder/accepted=%v", accepted), "ladder/alloc" + bucket, "ladder/placement/" + c.Placement, fmt.Sprintf("ladder/streams/%d", c.Streams), "ladder/pad/" + map[bool]string{true: "noise", false: "constant"}[c.Pad == "noise"]}, func() any {
 				return map[string]any{"case": c, "compressed_bytes": compressed, "allocated_mib": alloc >> 20, "accepted": accepted}
 			})
 			for _, v := range vs {
@@ -356,3 +378,4 @@ func TestC14Ladder(t *testing.T) {
 		}
 	})
 }
+
